@@ -249,14 +249,14 @@ def weiBatch {n} (V : List (Fin n)) (st : SrcSt n) : Except BErr (SrcSt n) :=
 inductive Next (n : Nat) where
   | done                          -- `D[S].size == 0`
   | fill (idx : List (Fin n))     -- `np.isinf(np.min(D[S]))`: `Q[:q+1], = np.where(np.isinf(D))`
-  | batch (V : List (Fin n))      -- `V, = np.where(D == np.min(D[S]))`
+  | batch (V : List (Fin n))      -- `V, = np.where(np.logical_and(D == np.min(D[S]), S))`
 
 def weiNext {n} (st : SrcSt n) : Next n :=
   let uns := (List.finRange n).filter fun i => st.S[i]
   if uns.isEmpty then .done else
   match ominL (uns.map fun i => st.D[i]) with
   | none => .fill ((List.finRange n).filter fun i => st.D[i].isNone)
-  | some m => .batch ((List.finRange n).filter fun i => st.D[i] == some m)
+  | some m => .batch ((List.finRange n).filter fun i => st.S[i] && st.D[i] == some m)
 
 /-- `while True:` of `betweenness_wei` / `edge_betweenness_wei` -/
 def weiLoop {n} : Nat → List (Fin n) → SrcSt n → Except BErr (SrcSt n)
